@@ -330,7 +330,7 @@ var leanKeywords = map[string]bool{"at": true, "from": true, "fun": true, "do": 
 var vocabulary = map[string]bool{"idx": true, "setIdx": true, "slice": true, "len": true, "upTo": true, "upToStep": true, "downFrom": true,
 	"enum": true, "cmp": true, "u8": true, "shl8": true, "shrInt": true, "andInt": true, "quo": true, "rem": true, "mapGet": true,
 	"copyInto": true, "containsAny": true, "replaceAll": true, "scan": true, "scanErr": true, "endErr": true, "wrWrite": true, "itoa": true,
-	"mapHas": true, "makeCap": true, "fuel": true, "setInsert": true, "setErase": true, "sortInts": true, "sortByLess": true, "searchGo": true, "min": true, "max": true,
+	"mapHas": true, "makeCap": true, "sprintf1": true, "fuel": true, "setInsert": true, "setErase": true, "sortInts": true, "sortByLess": true, "searchGo": true, "min": true, "max": true,
 	"none": true, "some": true, "pure": true}
 
 // variables the translation introduces in reader / iterator / writer methods and iter.Seq closures
@@ -1273,7 +1273,7 @@ func (g *gl) stmt(w *wr, s ast.Stmt) {
 			if tv, ok := g.info.Types[v.Rhs[0]]; ok && tv.Value != nil {
 				ann = " : " + g.leanType(g.objOf(id).Type()) // an unannotated numeral would default to Nat
 			}
-			if g.declared[id.Name] && g.rdKind != "" {
+			if g.declared[id.Name] && g.rdKind != "" && g.rdKind != "write" {
 				g.die(v, "redeclaration of "+id.Name+" in an inner scope")
 			}
 			g.declared[id.Name] = true
@@ -2443,6 +2443,26 @@ func (g *gl) readerMethod(lname, recvType, method, field, kind, rel, recT, place
 // the bytes of that ONE Write call.  Only the verbs whose output the model can state exactly.
 func (g *gl) fprintfBytes(c *ast.CallExpr) string {
 	tv, ok := g.info.Types[c.Args[1]]
+	if ok && tv.Value == nil && len(c.Args) == 3 {
+		// a format computed at run time, with one operand: `sprintf1` (defined for formats with the single verb %v)
+		if bt, isB := tv.Type.Underlying().(*types.Basic); isB && bt.Kind() == types.String {
+			a := c.Args[2]
+			at := g.typeOf(a)
+			x := g.expr(a)
+			var txt string
+			switch {
+			case isInt(at) && !isFloat(at):
+				txt = "(itoa " + x.arg() + ")"
+			case isByte(at):
+				txt = "(itoa (" + x.arg() + ".toNat : Int))"
+			case isList(at) && func() bool { b, ok := at.Underlying().(*types.Basic); return ok && b.Kind() == types.String }():
+				txt = x.arg()
+			default:
+				g.die(c, "Fprintf operand type with a computed format")
+			}
+			return "(← sprintf1 " + g.expr(c.Args[1]).arg() + " " + txt + ")"
+		}
+	}
 	if !ok || tv.Value == nil || tv.Value.Kind() != constant.String {
 		g.die(c, "Fprintf with a non-constant format")
 	}
@@ -3039,6 +3059,10 @@ func goLean(repo, out string) {
 		w.WriteString(g7.funcs[n].text)
 		w.WriteString("\n")
 	}
+	g8 := loadPkg(filepath.Join(repo, "formats", "bed"))
+	g8.writerMethod("bed_Write", "BED", "Write", "formats/bed",
+		"def bed_Write (b_N : Int) (b_Chrom : "+B+") (b_ChromStart : Int) (b_ChromEnd : Int) (b_Name : "+B+") (b_Score : Int) (b_Strand : "+B+") (b_ThickStart : Int) (b_ThickEnd : Int) (b_ItemRGB : "+B+") (b_BlockCount : Int) (b_BlockSizes : List Int) (b_BlockStarts : List Int) (w : Wr) : Option (GoErr × Wr) := none", nil)
+	w.WriteString(g8.funcs["bed_Write"].text + "\n")
 	fmt.Fprintln(w, "end Bio.Generated.GoSrc")
 	os.Remove(out)
 	if err := os.WriteFile(out, w.Bytes(), 0o644); err != nil {
